@@ -461,6 +461,48 @@ fn selftest() -> (u64, u64) {
     (inj, det)
 }
 
+const FAR_OFFSETS: [[u64; 3]; 3] = [[100, (1u64 << 31) + 65536, 3 * (1u64 << 30) + 512], [3 * (1u64 << 30) + 512, 100, (1u64 << 31) + 65536], [(1u64 << 32) - 4096, (1u64 << 30) - 2, 100]];
+
+/// Three records at the given byte offsets of a sparse source of 4 GiB - 2 bytes, located by the index.
+pub fn far_verdicts(ty: Ty, offs: [u64; 3]) -> Vec<(String, String)> {
+    let recs = records(ty, 3);
+    let enc: Vec<Vec<u8>> = recs.iter().map(encode_record).collect();
+    let total: u64 = (1u64 << 32) - 2;
+    let mut hdr = codec::encode_header((total / 2) as i32, ty.code(), &[0.0; 8]);
+    hdr[24..28].copy_from_slice(&(((total / 2) as u32) as i32).to_be_bytes());
+    let mut chunks = vec![(0u64, hdr)];
+    let mut shx = codec::encode_header(50 + 12, ty.code(), &[0.0; 8]);
+    for i in 0..3 {
+        chunks.push((offs[i], enc[i].clone()));
+        shx.extend(((offs[i] / 2) as u32 as i32).to_be_bytes());
+        shx.extend((((enc[i].len() - 8) / 2) as i32).to_be_bytes());
+    }
+    let run = catch(|| -> Result<Vec<Result<MRead, String>>, String> {
+        let src = crate::sparse::Sparse { chunks: chunks.clone(), len: total, filler: 0xEE, pos: 0 };
+        let mut r = ShapeReader::with_shx(src, Dev::quiet(shx.clone())).map_err(|e| err_kind(&e))?;
+        let mut v: Vec<Result<MRead, String>> = r.iter_shapes().take(6).map(|x| x.map(|s| from_lib(&s)).map_err(|e| err_kind(&e))).collect();
+        for i in 0..3 {
+            v.push(match r.read_nth_shape(i) {
+                None => Err("None".to_string()),
+                Some(x) => x.map(|s| from_lib(&s)).map_err(|e| err_kind(&e)),
+            });
+        }
+        Ok(v)
+    });
+    match run {
+        Ok(Ok(v)) => {
+            let ok = v.len() == 6 && (0..6).all(|i| matches!(&v[i], Ok(m) if super::c03::cmp_record(&recs[i % 3], m).is_none()));
+            if ok {
+                vec![]
+            } else {
+                vec![("far-offsets:wrong-or-missing-record".to_string(), format!("iteration then random access returned {:?}", v.iter().map(|x| x.as_ref().map(|_| "shape").map_err(|e| e.clone())).collect::<Vec<_>>()))]
+            }
+        }
+        Ok(Err(e)) => vec![("far-offsets:open-failed".to_string(), e)],
+        Err(p) => vec![(format!("far-offsets:{}", p.sig()), p.msg)],
+    }
+}
+
 pub fn check(tier: Tier) -> i32 {
     let started = Instant::now();
     if !super::c01_c02::scratch_usable() {
@@ -506,45 +548,14 @@ pub fn check(tier: Tier) -> i32 {
     // non-negative i32 word counts), on a sparse source; physical and permuted index order
     let mut far = Ctx::new();
     for ty in [Ty::Point, Ty::PolylineZ] {
-        let recs = records(ty, 3);
-        let enc: Vec<Vec<u8>> = recs.iter().map(encode_record).collect();
-        for offs in [[100u64, (1u64 << 31) + 65536, 3 * (1u64 << 30) + 512], [3 * (1u64 << 30) + 512, 100, (1u64 << 31) + 65536], [(1u64 << 32) - 4096, (1u64 << 30) - 2, 100]] {
-            let total: u64 = (1u64 << 32) - 2;
-            let mut hdr = codec::encode_header((total / 2) as i32, ty.code(), &[0.0; 8]);
-            hdr[24..28].copy_from_slice(&(((total / 2) as u32) as i32).to_be_bytes());
-            let mut chunks = vec![(0u64, hdr)];
-            let mut shx = codec::encode_header(50 + 12, ty.code(), &[0.0; 8]);
-            for i in 0..3 {
-                chunks.push((offs[i], enc[i].clone()));
-                shx.extend(((offs[i] / 2) as u32 as i32).to_be_bytes());
-                shx.extend((((enc[i].len() - 8) / 2) as i32).to_be_bytes());
-            }
+        for offs in FAR_OFFSETS {
             let cj = json!({"far_offsets": offs, "ty": ty.name()});
             let mut hh = Fnv::new();
             hh.str(&cj.to_string());
-            let run = catch(|| -> Result<Vec<Result<MRead, String>>, String> {
-                let src = crate::sparse::Sparse { chunks: chunks.clone(), len: total, filler: 0xEE, pos: 0 };
-                let mut r = ShapeReader::with_shx(src, Dev::quiet(shx.clone())).map_err(|e| err_kind(&e))?;
-                let mut v: Vec<Result<MRead, String>> = r.iter_shapes().take(6).map(|x| x.map(|s| from_lib(&s)).map_err(|e| err_kind(&e))).collect();
-                for i in 0..3 {
-                    v.push(match r.read_nth_shape(i) {
-                        None => Err("None".to_string()),
-                        Some(x) => x.map(|s| from_lib(&s)).map_err(|e| err_kind(&e)),
-                    });
-                }
-                Ok(v)
-            });
             far.lib_calls += 8;
             far.case_done(hh.finish(), true, 7);
-            match run {
-                Ok(Ok(v)) => {
-                    let ok = v.len() == 6 && (0..6).all(|i| matches!(&v[i], Ok(m) if super::c03::cmp_record(&recs[i % 3], m).is_none()));
-                    if !ok {
-                        far.violation("far-offsets:wrong-or-missing-record", || cj.clone(), || format!("iteration then random access returned {:?}", v.iter().map(|x| x.as_ref().map(|_| "shape").map_err(|e| e.clone())).collect::<Vec<_>>()));
-                    }
-                }
-                Ok(Err(e)) => far.violation("far-offsets:open-failed", || cj.clone(), || e),
-                Err(p) => far.violation(format!("far-offsets:{}", p.sig()), || cj.clone(), || p.msg.clone()),
+            for (sig, d) in far_verdicts(ty, offs) {
+                far.violation(sig, || cj.clone(), || d);
             }
         }
     }
@@ -583,6 +594,13 @@ pub fn check(tier: Tier) -> i32 {
 }
 
 pub fn replay(v: &Value) -> Vec<(String, String)> {
+    if let Some(a) = v.get("far_offsets").and_then(|x| x.as_array()) {
+        let offs: Vec<u64> = a.iter().filter_map(|x| x.as_u64()).collect();
+        return match (offs.len(), v.get("ty").and_then(|x| x.as_str()).and_then(Ty::from_name)) {
+            (3, Some(ty)) => far_verdicts(ty, [offs[0], offs[1], offs[2]]),
+            _ => vec![("bad-replay-file".into(), "cannot parse case".into())],
+        };
+    }
     match Case::from_json(v) {
         None => vec![("bad-replay-file".into(), "cannot parse case".into())],
         Some(case) => {
